@@ -1,0 +1,29 @@
+//go:build verif
+
+// Contracts for package nexus, checked by /verif (govc). Comments only.
+
+package nexus
+
+//@ func (*io/nexus.Parser).Parse
+//@   flag treeop
+//@   requires p != nil
+//@   allocates Nexus, []*tree.Tree, []string, map[string]bool
+//@   ensures [document_or_error] result1 == nil ==> result0 != nil
+//@   ensures [trees_flag_means_at_least_one_tree] result1 == nil && result0.HasTrees ==> len(result0.trees) > 0 && (forall k int :: {result0.trees[k]} 0 <= k && k < len(result0.trees) ==> result0.trees[k] != nil)
+
+// the only writer of HasTrees: the flag is set together with the first tree
+//@ func (*io/nexus.Nexus).AddTree
+//@   requires n != nil
+//@   allocates []*tree.Tree, []string
+//@   assigns n.trees, n.treeNames, n.HasTrees, elems(n.trees), elems(n.treeNames)
+//@   ensures [flag_set_with_a_tree] n.HasTrees && len(n.trees) == old(len(n.trees)) + 1 && n.trees[len(n.trees) - 1] == t
+
+// calls it(name, tree) once per tree in file order (the callback's effects are havocked by the engine)
+//@ func (*io/nexus.Nexus).IterateTrees
+//@   requires n != nil
+//@   assigns nothing
+
+//@ func (*io/nexus.Nexus).FirstTree
+//@   requires n != nil
+//@   assigns nothing
+//@   ensures [first_tree_of_the_document] (len(n.trees) > 0 ==> result == n.trees[0]) && (len(n.trees) == 0 ==> result == nil)
